@@ -274,6 +274,19 @@ def variations(ctx, rr):
     for a in P.own(lv, ast.Assign):
         if isinstance(a.value, ast.ListComp) and 'startswith' in ast.unparse(a.value) and isinstance(a.targets[0], ast.Name):
             host_lists.add(a.targets[0].id)
+    if not host_lists:
+        # the host stems are no longer collected by filtering every stem with startswith(b'h:'); the known wrong alternatives are
+        # prefix scans (a port stem between scheme and hosts ends them) and regular expressions over the raw LRU (not anchored at a
+        # stem start); anything else is not recognised
+        for a in P.own(lv, ast.Assign):
+            txt = ast.unparse(a.value)
+            if isinstance(a.targets[0], ast.Name) and ('takewhile' in txt or 'dropwhile' in txt or '.findall(' in txt or '.finditer(' in txt or 're.' in txt) and 'h:' in \
+                    (txt + ' '.join(ast.unparse(x.value) for m_ in [P.modules[lv.module]] for x in m_.body if isinstance(x, ast.Assign))):
+                rr.ob(ctx.where(lv, a), 'the host stems are all the stems that start with h:', ok=False)
+                rr.fail(ctx.finding('R-VARIATIONS', lv, a, 'the host stems are collected with `%s` instead of filtering every stem with startswith(b"h:"): a prefix scan stops at a port '
+                                    'stem, a regular expression over the raw LRU also matches `h:` inside another stem; the www variation is then missing or computed for a wrong '
+                                    'host list' % txt[:60], stmt='host stem collection'))
+                return
     n_www = 0
     for t in ast.walk(lv.node):
         if isinstance(t, ast.Compare) and any(isinstance(o, (ast.In, ast.NotIn)) for o in t.ops) and any(isinstance(c, ast.Name) and c.id in host_lists for c in t.comparators):
@@ -331,6 +344,28 @@ def variations(ctx, rr):
             if not oks:
                 rr.fail(ctx.finding('R-VARIATIONS', lv, c, 'a variation is built as `%s` instead of substituting the host section of the LRU in place: stems between the scheme and the '
                                     'hosts (a port) or after them can be lost or rewritten' % ast.unparse(a)[:70]))
+            if oks:
+                # what is searched for is the whole host section (every host stem joined), so that the first occurrence is the host section
+                needle = a.args[0]
+                defs = [x.value for x in P.own(lv, ast.Assign) if isinstance(needle, ast.Name) and any(isinstance(t, ast.Name) and t.id == needle.id for t in x.targets)] \
+                    if isinstance(needle, ast.Name) else [needle]
+
+                def is_join(e):
+                    return isinstance(e, ast.BinOp) and isinstance(e.op, ast.Add) and isinstance(e.left, ast.Call) and isinstance(e.left.func, ast.Attribute) \
+                        and e.left.func.attr == 'join' and e.left.args and isinstance(e.left.args[0], ast.Name) and e.left.args[0].id in host_lists
+                okn = bool(defs) and all(is_join(d) for d in defs)
+                rr.ob(ctx.where(lv, c), 'the text replaced by `%s` is the whole joined host section' % ast.unparse(a)[:50], ok=okn)
+                if not okn:
+                    rr.fail(ctx.finding('R-VARIATIONS', lv, c, 'the www variation replaces the first occurrence of `%s`, which is not the whole host section (%s): when the same stem text '
+                                        'occurs earlier in the LRU, another stem is rewritten and the class is no longer closed'
+                                        % (ast.unparse(needle), ', '.join(ast.unparse(d)[:40] for d in defs) or 'no definition'), stmt='www needle'))
+    # the scheme variation is another LRU or nothing: never the LRU itself (it would be listed twice)
+    for r_ in P.own(hv, ast.Return):
+        same = isinstance(r_.value, ast.Name) and r_.value.id in hv.params
+        rr.ob(ctx.where(hv, r_), 'https_variation returns a different LRU or None', ok=not same)
+        if same:
+            rr.fail(ctx.finding('R-VARIATIONS', hv, r_, 'https_variation returns its argument unchanged for a scheme without twin: lru_variations tests the result for truthiness only, '
+                                'so the prefix (and its www form) is listed twice'))
     # ---- (first) the result list starts with the input and is only appended to
     res = set()
     for r in P.own(lv, ast.Return):
